@@ -484,12 +484,12 @@ class GetResponsePayload(base.ResponsePayload):
         """
         local_stream = utils.BytearrayStream()
 
-        if self.object_type:
+        if self._object_type:
             self._object_type.write(local_stream, kmip_version=kmip_version)
         else:
             raise ValueError("Payload is missing the object type field.")
 
-        if self.unique_identifier:
+        if self._unique_identifier:
             self._unique_identifier.write(
                 local_stream,
                 kmip_version=kmip_version
